@@ -272,15 +272,14 @@ Section WithVars.
         split.
         * exists 34, (json_encode_body O (block_string_value r) ++ [34]). split; reflexivity.
         * intros fuel rest Hf _. unfold json_encode_string.
-          rewrite <- (block_value_agrees r) by (try assumption; apply Bool.negb_true_iff; assumption).
+          rewrite <- (block_value_agrees r) by assumption.
           apply string_case; [|unfold json_encode_string in Hf; simpl in Hf; lia].
           apply encoded_string_read_back. assumption.
       + (* quoted *)
         cbn [value_to_json gql_denote]. cbn [lit_valid_b] in Hv. cbn [go_safe_b] in Hsafe. unfold quoted_safe in Hsafe.
-        apply Bool.andb_true_iff in Hsafe. destruct Hsafe as [Hctl Hbr]. apply Bool.negb_true_iff in Hctl.
         destruct (gql_str GPlain r) as [out|] eqn:Eg; [|discriminate].
         split.
-        * exists 34, (r ++ [34]). split; reflexivity.
+        * exists 34, (escape_ctl r ++ [34]). split; reflexivity.
         * intros fuel rest Hf _. unfold wrap_quotes.
           apply string_case; [|unfold wrap_quotes in Hf; simpl in Hf; lia].
           apply (quoted_string_agrees (length r)); auto.
